@@ -76,11 +76,13 @@ Theorem C16_digest_from_header_bytes : forall (secret hdr id : str) (reply_toks 
   = [open_tag ++ hex (sha1 (id ++ secret)) ++ close_tag].
 Proof. exact written_from_header. Qed.
 
-(* A header InitStream rejects: permanent error, state PermanentError, nothing written. *)
+(* A header InitStream rejects: the transport's (non-permanent) error, state PermanentError,
+   nothing written, nothing left open. *)
 Theorem C16_header_refused : forall (secret hdr : str) (w : bool) (reply_toks : list token),
   init_stream hdr = None ->
   let r := connect_from_wire secret hdr w reply_toks in
-  r_err r = ErrConn true /\ r_state r = PermanentErrorState /\ r_recv r = false /\ r_written r = [].
+  r_err r = ErrConn false /\ r_state r = PermanentErrorState /\ r_recv r = false /\ r_written r = [] /\
+  r_open r = false.
 Proof. exact header_refused. Qed.
 
 (* "For every stream id": every attribute-legal text [s] (any bytes but control characters
@@ -173,8 +175,8 @@ Theorem C16_stream_error_reply : forall (secret : str) (e : env) (id c : str),
   r_events r = [(StreamErrorState, conflict)].
 Proof. exact stream_error_reply. Qed.
 
-(* Any other packet, or no packet (malformed, unknown element, closed): permanent
-   error and state PermanentError. *)
+(* Any other packet, or an answer that cannot be read as XMPP (malformed, unknown element):
+   permanent error and state PermanentError. *)
 Theorem C16_other_reply : forall (secret : str) (e : env) (id : str),
   e_pre e = PConnected id -> e_write_ok e = true ->
   (e_reply e = RReadError \/ exists k, e_reply e = ROther k) ->
@@ -189,12 +191,40 @@ Theorem C16_write_failure : forall (secret : str) (e : env) (id : str),
   r_err r = ErrConn false /\ r_state r = StreamErrorState /\ r_recv r = false.
 Proof. exact write_failure. Qed.
 
-(* No transport or no stream header: permanent error, state PermanentError. *)
-Theorem C16_transport_failure : forall (secret : str) (e : env),
-  (forall id, e_pre e <> PConnected id) ->
+(* No transport (an address the component cannot use): permanent error, state PermanentError. *)
+Theorem C16_bad_transport : forall (secret : str) (e : env),
+  e_pre e = PBadTransport ->
   let r := component_connect secret e in
   r_err r = ErrConn true /\ r_state r = PermanentErrorState /\ r_recv r = false.
-Proof. exact transport_failure. Qed.
+Proof. exact bad_transport. Qed.
+
+(* Dial refused or timed out, stream header cut or unreadable: the transport's own error, NOT
+   permanent (a server that is not up yet), state PermanentError. *)
+Theorem C16_connect_failed : forall (secret : str) (e : env),
+  e_pre e = PConnectFail ->
+  let r := component_connect secret e in
+  r_err r = ErrConn false /\ r_state r = PermanentErrorState /\ r_recv r = false.
+Proof. exact connect_failed. Qed.
+
+(* The connection is lost while the answer to the handshake is awaited or read: NOT permanent. *)
+Theorem C16_cut_reply : forall (secret : str) (e : env) (id : str),
+  e_pre e = PConnected id -> e_write_ok e = true -> e_reply e = RCut ->
+  let r := component_connect secret e in
+  r_err r = ErrConn false /\ r_state r = PermanentErrorState /\ r_recv r = false.
+Proof. exact cut_reply. Qed.
+
+(* When Connect returns, a connection on which Send writes is left open exactly when the
+   attempt succeeded: every failed attempt leaves none (the connection of an attempt whose
+   handshake was not accepted is closed by Resume itself). *)
+Theorem C16_open_iff_success : forall (secret : str) (e : env),
+  r_open (component_connect secret e) = true <-> success e = true.
+Proof. exact open_iff_success. Qed.
+
+(* Once the session, or the attempt, is over the state is not Established: the receiver
+   reports every end of its stream - the server's </stream:stream> included - as Disconnected. *)
+Theorem C16_state_after_end : forall (secret : str) (e : env),
+  state_after_end (component_connect secret e) <> Established.
+Proof. exact state_after_end_not_established. Qed.
 
 (* Exactly one event reaches the handler: it carries the state Connect leaves behind, and
    its StreamError text is "conflict" exactly on the stream-error branch, empty otherwise. *)
@@ -222,10 +252,11 @@ Theorem C16_established_iff_handshake_element :
   exists a rest rest', next_token toks = Some (TStart handshake_name a, rest) /\ skip rest = Some rest'.
 Proof. exact established_iff_handshake_element. Qed.
 
-(* The stream's end tag is a packet (falls to the default branch), silence/close an error. *)
+(* The stream's end tag is a packet (falls to the default branch); nothing more to read (the
+   server hung up instead of answering) is a lost connection. *)
 Theorem C16_stream_end_and_silence : forall ts : list token,
   (forall n r, next_token ts = Some (TEnd n, r) -> reply_from_tokens ts = ROther 12) /\
-  (next_token ts = None -> reply_from_tokens ts = RReadError).
+  (next_token ts = None -> reply_from_tokens ts = RCut).
 Proof. intros ts. split; [intros n r; exact (stream_end_is_other ts n r) | exact (no_reply_is_error ts)]. Qed.
 
 (* The outcome has no input besides (transport outcome, write outcome, reply) and the
@@ -245,7 +276,7 @@ Example C16_example :
   component_connect (bytes_of "s3cr3t") e
   = Result ErrNil Established true
       [bytes_of "<handshake>0ee9dd05d443e97855e1a3e57f64786f8f09dfa0</handshake>"]
-      [(Established, [])].
+      [(Established, [])] true.
 Proof. vm_compute. repeat split. Qed.
 
 (* non-vacuity of the header theorems: a header with qualified look-alikes before and after
@@ -271,7 +302,11 @@ Print Assumptions C16_failure_not_established.
 Print Assumptions C16_stream_error_reply.
 Print Assumptions C16_other_reply.
 Print Assumptions C16_write_failure.
-Print Assumptions C16_transport_failure.
+Print Assumptions C16_bad_transport.
+Print Assumptions C16_connect_failed.
+Print Assumptions C16_cut_reply.
+Print Assumptions C16_open_iff_success.
+Print Assumptions C16_state_after_end.
 Print Assumptions C16_one_event.
 Print Assumptions C16_stream_id_unqualified_last.
 Print Assumptions C16_unqualified_id.
